@@ -10,7 +10,7 @@ Top-level obligations (taken from the property statements):
 import re
 
 from vf.extract import extract_item, extract_fn
-from vf.unit import Unit
+from vf.unit import Unit, _find_all
 
 PRELUDE = r'''
 #![allow(unused_imports, unused_variables, dead_code, unused_mut, unused_parens)]
@@ -203,7 +203,7 @@ def build():
     n = u.extract(D, r'impl Deduplicator', 'new', 'Deduplicator::new')
     n.sig_rewrite('R12', '-> Self', '-> Deduplicator')
     n.rewrite_re('R12', r'\bSelf\s*\{', 'Deduplicator {')
-    n.ensures('fresh', 'ret.rewrite@ == Map::<WitnessId, WitnessId>::empty() && ret.seen@ == Map::<AluKey, WitnessId>::empty()')
+    n.ensures('fresh', 'ret.rewrite@ == Map::<WitnessId, WitnessId>::empty() && ret.seen@ == Map::<AluKey, WitnessId>::empty() && ret.mentioned@ == Set::<WitnessId>::empty()')
 
     d = u.extract(D, r'impl Deduplicator', 'detect_duplicate', 'Deduplicator::detect_duplicate')
     d.sig_rewrite('R11', '<F: Field>', '<F>')
@@ -213,7 +213,7 @@ def build():
     d.rewrite('R1', 'if let Some(&canonical) = self.seen.get(&key) { Some((*out, canonical)) }',
               'if let Some(canonical) = self.seen.get(&key) { Some((*out, *canonical)) }')
     d.requires('acyclic', 'acyclic(old(self).rewrite@)')
-    d.ensures('rewrite_untouched', 'final(self).rewrite@ == old(self).rewrite@')
+    d.ensures('rewrite_untouched', 'final(self).rewrite@ == old(self).rewrite@ && final(self).mentioned@ == old(self).mentioned@')
     d.ensures('non_alu_passes', '!is_alu(*op) ==> ret.is_none() && final(self).seen@ == old(self).seen@')
     d.ensures('alu_lookup', '''*op matches Op::Alu { kind, a, b, c, out, intermediate_out } ==> ({
             let rw = old(self).rewrite@;
@@ -225,12 +225,72 @@ def build():
             }
         })''')
 
+    mm = u.extract(D, r'impl Deduplicator', 'mark_mentioned', 'Deduplicator::mark_mentioned')
+    mm.sig_rewrite('R11', '<F: Field>', '<F>')
+    mm.rewrite_re('R5', r'for (\w+) in (inputs|outputs|group) \{', r'for q_\2 in 0..\2.len() { let \1 = &\2[q_\2];', min_count=0)
+    mm.attr('#[verifier::loop_isolation(false)]')
+    mm.ensures('records_exactly_the_slots_the_op_mentions', 'forall|x: WitnessId| #[trigger] final(self).mentioned@.contains(x) <==> (old(self).mentioned@.contains(x) || mentions(*op, x))')
+    mm.ensures('tables_untouched', 'final(self).rewrite@ == old(self).rewrite@ && final(self).seen@ == old(self).seen@')
+    FR = 'self.rewrite@ == old(self).rewrite@ && self.seen@ == old(self).seen@'
+    M = '#[trigger] self.mentioned@.contains(x)'
+    M0 = 'old(self).mentioned@.contains(x)'
+    def mloop(head, nth, inv_rhs, end_hint):
+        if len(_find_all(head, mm.body)) <= nth:
+            return
+        mm.at_loop_end(head, end_hint, nth=nth)
+        mm.loop(head, invariants=[('recorded_so_far', f'{FR} && forall|x: WitnessId| {M} <==> ({inv_rhs})')], nth=nth)
+    # textual order: Hint.inputs, Hint.outputs, NPO.inputs{group}, NPO.outputs{group}; later ones first so ordinals stay valid
+    mloop('for q_group in 0..group.len()', 1, f'{M0} || in_seq2(inputs@, x) || pref2(outputs@, q_outputs as int, x) || pref(group@, q_group as int, x)',
+          'proof { assert forall|x: WitnessId| pref(group@, q_group + 1, x) <==> (pref(group@, q_group as int, x) || group@[q_group as int] == x) by { lemma_pref_step(group@, q_group as int, x); } }')
+    mloop('for q_outputs in 0..outputs.len()', 1, f'{M0} || in_seq2(inputs@, x) || pref2(outputs@, q_outputs as int, x)',
+          'proof { assert forall|x: WitnessId| pref2(outputs@, q_outputs + 1, x) <==> (pref2(outputs@, q_outputs as int, x) || pref(outputs@[q_outputs as int]@, outputs@[q_outputs as int]@.len() as int, x)) by { lemma_pref2_step(outputs@, q_outputs as int, x); } }')
+    mloop('for q_group in 0..group.len()', 0, f'{M0} || pref2(inputs@, q_inputs as int, x) || pref(group@, q_group as int, x)',
+          'proof { assert forall|x: WitnessId| pref(group@, q_group + 1, x) <==> (pref(group@, q_group as int, x) || group@[q_group as int] == x) by { lemma_pref_step(group@, q_group as int, x); } }')
+    mloop('for q_inputs in 0..inputs.len()', 1, f'{M0} || pref2(inputs@, q_inputs as int, x)',
+          'proof { assert forall|x: WitnessId| pref2(inputs@, q_inputs + 1, x) <==> (pref2(inputs@, q_inputs as int, x) || pref(inputs@[q_inputs as int]@, inputs@[q_inputs as int]@.len() as int, x)) by { lemma_pref2_step(inputs@, q_inputs as int, x); } }')
+    mloop('for q_outputs in 0..outputs.len()', 0, f'{M0} || inputs@.contains(x) || pref(outputs@, q_outputs as int, x)',
+          'proof { assert forall|x: WitnessId| pref(outputs@, q_outputs + 1, x) <==> (pref(outputs@, q_outputs as int, x) || outputs@[q_outputs as int] == x) by { lemma_pref_step(outputs@, q_outputs as int, x); } }')
+    mloop('for q_inputs in 0..inputs.len()', 0, f'{M0} || pref(inputs@, q_inputs as int, x)',
+          'proof { assert forall|x: WitnessId| pref(inputs@, q_inputs + 1, x) <==> (pref(inputs@, q_inputs as int, x) || inputs@[q_inputs as int] == x) by { lemma_pref_step(inputs@, q_inputs as int, x); } }')
+    if len(_find_all('for q_outputs in 0..outputs.len()', mm.body)) == 2:
+        mm.before('for q_outputs in 0..outputs.len()', 'proof { assert forall|x: WitnessId| pref2(inputs@, inputs@.len() as int, x) <==> in_seq2(inputs@, x) by { lemma_pref2_all(inputs@, x); } }', nth=1)
+        mm.before('for q_outputs in 0..outputs.len()', 'proof { assert forall|x: WitnessId| pref(inputs@, inputs@.len() as int, x) <==> inputs@.contains(x) by { lemma_pref_all(inputs@, x); } }', nth=0)
+    mm.at_end('''proof {
+            assert forall|x: WitnessId| self.mentioned@.contains(x) <==> (old(self).mentioned@.contains(x) || mentions(*op, x)) by {
+                match *op {
+                    Op::Hint { inputs, outputs, .. } => { lemma_pref_all(inputs@, x); lemma_pref_all(outputs@, x); }
+                    Op::NonPrimitiveOpWithExecutor { inputs, outputs, .. } => { lemma_pref2_all(inputs@, x); lemma_pref2_all(outputs@, x); }
+                    _ => {}
+                }
+            }
+        }''')
+    u.text('''verus! {
+pub open spec fn pref(s: Seq<WitnessId>, n: int, x: WitnessId) -> bool { exists|j: int| 0 <= j < n && j < s.len() && #[trigger] s[j] == x }
+pub open spec fn pref2(s: Seq<Vec<WitnessId>>, n: int, x: WitnessId) -> bool { exists|g: int| 0 <= g < n && g < s.len() && (#[trigger] s[g])@.contains(x) }
+pub proof fn lemma_pref_step(s: Seq<WitnessId>, n: int, x: WitnessId) requires 0 <= n < s.len() ensures pref(s, n + 1, x) <==> (pref(s, n, x) || s[n] == x) {
+    if pref(s, n + 1, x) { let j = choose|j: int| 0 <= j < n + 1 && j < s.len() && #[trigger] s[j] == x; if j < n { assert(pref(s, n, x)); } }
+    if s[n] == x { assert(pref(s, n + 1, x)); }
+    if pref(s, n, x) { let j = choose|j: int| 0 <= j < n && j < s.len() && #[trigger] s[j] == x; assert(s[j] == x); assert(pref(s, n + 1, x)); }
+}
+pub proof fn lemma_pref_all(s: Seq<WitnessId>, x: WitnessId) ensures pref(s, s.len() as int, x) <==> s.contains(x) {
+    if s.contains(x) { let j = choose|j: int| 0 <= j < s.len() && s[j] == x; assert(s[j] == x); assert(pref(s, s.len() as int, x)); }
+}
+pub proof fn lemma_pref2_step(s: Seq<Vec<WitnessId>>, n: int, x: WitnessId) requires 0 <= n < s.len() ensures pref2(s, n + 1, x) <==> (pref2(s, n, x) || pref(s[n]@, s[n]@.len() as int, x)) {
+    lemma_pref_all(s[n]@, x);
+    if pref2(s, n + 1, x) { let g = choose|g: int| 0 <= g < n + 1 && g < s.len() && (#[trigger] s[g])@.contains(x); if g < n { assert(pref2(s, n, x)); } }
+    if s[n]@.contains(x) { assert(pref2(s, n + 1, x)); }
+    if pref2(s, n, x) { let g = choose|g: int| 0 <= g < n && g < s.len() && (#[trigger] s[g])@.contains(x); assert(s[g]@.contains(x)); assert(pref2(s, n + 1, x)); }
+}
+pub proof fn lemma_pref2_all(s: Seq<Vec<WitnessId>>, x: WitnessId) ensures pref2(s, s.len() as int, x) <==> in_seq2(s, x) {
+    if in_seq2(s, x) { let g = choose|g: int| 0 <= g < s.len() && (#[trigger] s[g])@.contains(x); assert(s[g]@.contains(x)); assert(pref2(s, s.len() as int, x)); }
+}
+}''')
     r = u.extract(D, r'impl Deduplicator', 'run', 'Deduplicator::run')
     r.sig_rewrite('R11', '<F: Field>', '<F>')
     r.sig_rewrite('R2', 'mut self', 'self')
     r.rewrite_re('R2', r'\bself\.', 'self_.', min_count=4)
     r.at_start('let mut self_ = self;')
-    r.requires('fresh', 'self.rewrite@ == Map::<WitnessId, WitnessId>::empty() && self.seen@ == Map::<AluKey, WitnessId>::empty()')
+    r.requires('fresh', 'self.rewrite@ == Map::<WitnessId, WitnessId>::empty() && self.seen@ == Map::<AluKey, WitnessId>::empty() && self.mentioned@ == Set::<WitnessId>::empty()')
     r.requires('wf_ops', 'forall|k: int| 0 <= k < ops@.len() ==> wf_op(#[trigger] ops@[k])')
     r.ensures('acyclic', 'acyclic(ret.1@)')
     r.ensures('no_relation_dropped', 'all_covered(ops@, ret.0@, ret.1@)')
@@ -245,6 +305,7 @@ def build():
     r.loop('for mut op in it: ops', invariants=[
         ('seq', 'it.seq() == ops0'),
         ('inv', 'inv(ops0, it.index@ as int, result@, self_.rewrite@, self_.seen@, seen_idx, cover)'),
+        ('mentioned_is_what_the_kept_ops_mention', 'forall|x: WitnessId| #[trigger] self_.mentioned@.contains(x) <==> list_mentions(result@, x)'),
     ])
     r.after('op.apply_witness_rewrite(&self_.rewrite);', 'let ghost op1 = op; let ghost i = it.index@ as int; let ghost rw = self_.rewrite@; let ghost seen0 = self_.seen@; let ghost res0 = result@;')
     r.before('let root = canonical.resolve(&self_.rewrite);', '''proof {
@@ -252,20 +313,24 @@ def build():
                 lemma_dup_facts(ops0, i, result@, rw, seen0, seen_idx, cover, op1);
             }''')
     r.before('self_.rewrite.insert(dup_out, root);', '''proof {
-                    // H: the duplicate's out slot is mentioned by no kept op.  NOT established by the code: see known_findings.json (C03-alias)
-                    assert(dup_out != root ==> !list_mentions(result@, dup_out)); // @@A:H_dup_out_unmentioned
+                    // the duplicate's out slot is mentioned by no kept op: since fix ba1bfe9 the code checks it (`mentioned`); before, this was the open finding C03-alias
+                    assert(dup_out != root ==> !list_mentions(result@, dup_out)); // @@A:dup_out_unmentioned_by_any_kept_op
                 }''')
-    r.before('/*continue*/', '''proof {
-                if dup_out != root { lemma_inv_dup_insert(ops0, i, result@, rw, seen0, seen_idx, cover, op1); }
-                else { lemma_inv_dup_same(ops0, i, result@, rw, seen0, seen_idx, cover, op1); }
+    r.before('skip_ = true;', '''proof {
+                lemma_inv_dup_same(ops0, i, result@, rw, seen0, seen_idx, cover, op1);
                 cover = cover.push(seen_idx[alu_key(op1)]);
-            }''')
+            }''', nth=0)
+    r.before('skip_ = true;', '''proof {
+                lemma_inv_dup_insert(ops0, i, result@, rw, seen0, seen_idx, cover, op1);
+                cover = cover.push(seen_idx[alu_key(op1)]);
+            }''', nth=1)
     r.after('result.push(op);', '''proof {
                 if is_alu(op1) { lemma_key_of_rewritten(rw, ops0[i], op1); }
                 lemma_inv_push(ops0, i, res0, rw, seen0, seen_idx, cover, op1, self_.seen@);
                 assert(res0.push(op1) =~= result@);
                 if self_.seen@ != seen0 { seen_idx = seen_idx.insert(alu_key(op1), result@.len() - 1); }
                 cover = cover.push(result@.len() - 1);
+                assert forall|x: WitnessId| self_.mentioned@.contains(x) <==> list_mentions(result@, x) by { lemma_list_mentions_push(res0, op1, x); }
             }''')
     r.at_end_expr('(result, self_.rewrite)', '''proof {
             assert(cover.len() == ops0.len());
@@ -277,6 +342,7 @@ def build():
     u.text('verus! {\nimpl Deduplicator {')
     u.emit(n)
     u.emit(d)
+    u.emit(mm)
     u.emit(r)
     u.text('}\n}')
     return u
